@@ -423,6 +423,14 @@ func (b *body) call(x *ast.CallExpr, et ty, en env, bs *binds) (string, ty) {
 		if id, ok := f.X.(*ast.Ident); ok {
 			if pn, ok := t.info.Uses[id].(*types.PkgName); ok {
 				full := pn.Imported().Path() + "." + f.Sel.Name
+				if full == "unsafe.Sizeof" {
+					// the size in bytes of a value of the (type-parameter) element type
+					at := t.tyOf(t.info.Types[x.Args[0]].Type)
+					if at.c == cMixed && at.lean != "" {
+						return fmt.Sprintf("((%s.width / 8 : Nat) : Int)", at.lean), ty{cInt, "tU64", "u64:uintptr"}
+					}
+					fail("unsafe.Sizeof of %s", at.key)
+				}
 				a, at := b.expr(x.Args[0], en, bs)
 				switch full {
 				case "math.Round":
@@ -493,6 +501,9 @@ func (b *body) call(x *ast.CallExpr, et ty, en env, bs *binds) (string, ty) {
 			for i := 0; i < inst.TypeArgs.Len(); i++ {
 				at := t.tyOf(inst.TypeArgs.At(i))
 				if at.lean == "" {
+					fail("type argument %s", at.key)
+				}
+				if at.c == cMixed && !strings.HasPrefix(at.key, "param:") {
 					fail("type argument %s", at.key)
 				}
 				args = append(args, at.lean)
@@ -595,6 +606,8 @@ func (b *body) stmts(list []ast.Stmt, rest [][]ast.Stmt, en env, ind string) str
 						out += fmt.Sprintf("%slet %s : Int := 0\n", ind, n)
 					case cFloat:
 						out += fmt.Sprintf("%slet %s : FV := FV.fin 0\n", ind, n)
+					case cMixed:
+						out += fmt.Sprintf("%slet %s : Int := 0\n", ind, n)
 					default:
 						fail("zero value of %s", vt.key)
 					}
@@ -976,6 +989,9 @@ func (t *tr) typeParams(sig *types.Signature) (string, bool) {
 			out += fmt.Sprintf(" (%s : IntTy)", pt.lean)
 		case cFloat:
 			out += fmt.Sprintf(" (%s : Fmt)", pt.lean)
+		case cMixed:
+			// a type parameter ranging over all element types: only its size is ever used
+			out += fmt.Sprintf(" (%s : Kind)", pt.lean)
 		default:
 			return "", false
 		}
@@ -1255,6 +1271,10 @@ func main() {
 		if _, ok := t.failed[obj]; ok {
 			continue
 		}
+		if fd.Recv == nil && fd.Name.Name == "Alloc" {
+			t.bufMethod(fd)
+			continue
+		}
 		if owner, ok := bufName(obj); ok && (owner == "Buffer" || owner == "C" || (owner == "PoolAllocator" && fd.Name.Name == "Put")) {
 			t.bufMethod(fd)
 			continue
@@ -1287,7 +1307,7 @@ func main() {
 		switch {
 		case strings.HasSuffix(short, "_k"):
 			return "Kernels"
-		case strings.HasPrefix(short, "Buffer_") || strings.HasPrefix(short, "C_") || strings.HasPrefix(short, "PoolAllocator_"):
+		case strings.HasPrefix(short, "Buffer_") || strings.HasPrefix(short, "C_") || strings.HasPrefix(short, "PoolAllocator_") || short == "Alloc":
 			return "Buffer"
 		}
 		return "Scalar"
